@@ -538,3 +538,131 @@ pub fn cut_inside_markup(doc: &[u8], cuts: &[u32]) -> bool {
     }
     cuts.iter().any(|&c| inside[c as usize])
 }
+
+/// "Stretch" a token document so that size thresholds are crossed now and then:
+/// a long element name, a long text run, a long attribute value, many attributes on
+/// one tag, or deep nesting. Structure (and the name/attrs fields the models use)
+/// stays exact. Applied to a small share of plans only.
+pub fn stretch_tokens(rng: &mut Rng, toks: &mut Vec<Tok>, allow_wrap: bool) -> String {
+    let mut note = String::new();
+    let lens = [17usize, 33, 65, 129, 257, 1100];
+    for _ in 0..rng.range(1, 2) {
+        match rng.below(5) {
+            0 => {
+                // rename one element name consistently
+                let names: Vec<String> = toks.iter().filter(|t| matches!(t.k, TK::Start | TK::Empty)).map(|t| t.name.clone()).collect();
+                if names.is_empty() {
+                    continue;
+                }
+                let old = rng.pick(&names).clone();
+                let unit = *rng.pick(&["n", "n", "\u{e9}", "n\u{e9}", "\u{65e5}"]);
+                let extra: String = unit.chars().cycle().take(*rng.pick(&lens)).collect();
+                let new = format!("{}{}", old, extra);
+                for t in toks.iter_mut() {
+                    if t.name == old && matches!(t.k, TK::Start | TK::Empty | TK::End) {
+                        let off = if t.k == TK::End { 2 } else { 1 };
+                        // raw starts with '<' or '</' followed by exactly the name
+                        if t.raw.len() >= off + old.len() && &t.raw[off..off + old.len()] == old.as_bytes() {
+                            let mut r = t.raw[..off + old.len()].to_vec();
+                            r.extend_from_slice(extra.as_bytes());
+                            r.extend_from_slice(&t.raw[off + old.len()..]);
+                            t.raw = r;
+                            t.name = new.clone();
+                        }
+                    }
+                }
+                note.push_str(&format!("long-name({}) ", new.len()));
+            }
+            1 => {
+                let idx: Vec<usize> = (0..toks.len()).filter(|&i| toks[i].k == TK::Text).collect();
+                if idx.is_empty() {
+                    continue;
+                }
+                let i = *rng.pick(&idx);
+                let n = *rng.pick(&[200usize, 1000, 8200, 20000]);
+                let filler: String = "lorem ipsum ".chars().cycle().take(n).collect();
+                let at = toks[i].raw.len() / 2;
+                let at = (0..=at).rev().find(|&a| std::str::from_utf8(&toks[i].raw[..a]).is_ok()).unwrap_or(0);
+                let mut r = toks[i].raw[..at].to_vec();
+                r.extend_from_slice(filler.as_bytes());
+                r.extend_from_slice(&toks[i].raw[at..]);
+                toks[i].raw = r;
+                note.push_str(&format!("long-text({}) ", n));
+            }
+            2 => {
+                // many attributes on one start tag
+                let idx: Vec<usize> = (0..toks.len()).filter(|&i| matches!(toks[i].k, TK::Start | TK::Empty)).collect();
+                if idx.is_empty() {
+                    continue;
+                }
+                let i = *rng.pick(&idx);
+                let n = *rng.pick(&[9usize, 33, 70]);
+                let close = if toks[i].k == TK::Empty { 2 } else { 1 };
+                let mut body = toks[i].raw[..toks[i].raw.len() - close].to_vec();
+                while body.last().map(|b| matches!(b, b' ' | b'\t' | b'\r' | b'\n')).unwrap_or(false) {
+                    body.pop();
+                }
+                for k in 0..n {
+                    let key = format!("z{}", k);
+                    let val = if k % 7 == 0 { "v>".to_string() } else { format!("{}", k) };
+                    body.extend_from_slice(format!(" {}=\"{}\"", key, val).as_bytes());
+                    toks[i].attrs.push((key, val));
+                }
+                body.extend_from_slice(if close == 2 { b"/>" } else { b">" });
+                toks[i].raw = body;
+                note.push_str(&format!("many-attrs({}) ", n));
+            }
+            3 => {
+                // one long attribute value
+                let idx: Vec<usize> = (0..toks.len()).filter(|&i| matches!(toks[i].k, TK::Start | TK::Empty)).collect();
+                if idx.is_empty() {
+                    continue;
+                }
+                let i = *rng.pick(&idx);
+                let n = *rng.pick(&[130usize, 600, 9000]);
+                let close = if toks[i].k == TK::Empty { 2 } else { 1 };
+                let mut body = toks[i].raw[..toks[i].raw.len() - close].to_vec();
+                while body.last().map(|b| matches!(b, b' ' | b'\t' | b'\r' | b'\n')).unwrap_or(false) {
+                    body.pop();
+                }
+                let val: String = match rng.below(4) {
+                    0 => "a>b ".chars().cycle().take(n).collect(),
+                    1 => format!("{}>{}", "x".repeat(n / 2), "y".repeat(n / 2)),
+                    2 => format!("{}/>{}", "\u{e9}".repeat(n / 3), "z".repeat(n / 3)),
+                    _ => "v".repeat(n),
+                };
+                body.extend_from_slice(format!(" zz='{}'", val).as_bytes());
+                toks[i].attrs.push(("zz".to_string(), val));
+                body.extend_from_slice(if close == 2 { b"/>" } else { b">" });
+                toks[i].raw = body;
+                note.push_str(&format!("long-attr({}) ", n));
+            }
+            _ if allow_wrap => {
+                // deep nesting around the first element
+                if let Some(first) = toks.iter().position(|t| matches!(t.k, TK::Start | TK::Empty)) {
+                    let long_wrapper = rng.chance(1, 4);
+                    let d = if long_wrapper { *rng.pick(&[20usize, 70]) } else { *rng.pick(&[8usize, 20, 70, 300]) };
+                    let long_name: String = format!("w{}", "n".repeat(1000));
+                    let name: &str = if long_wrapper { &long_name } else { "w" };
+                    let mut pre: Vec<Tok> = vec![];
+                    let mut post: Vec<Tok> = vec![];
+                    for _ in 0..d {
+                        pre.push(Tok { k: TK::Start, raw: format!("<{}>", name).into_bytes(), name: name.to_string(), attrs: vec![] });
+                        post.push(Tok { k: TK::End, raw: format!("</{}>", name).into_bytes(), name: name.to_string(), attrs: vec![] });
+                    }
+                    let tail: Vec<Tok> = toks.split_off(first);
+                    toks.extend(pre);
+                    toks.extend(tail);
+                    // close the wrappers after the last End token
+                    let last_end = toks.iter().rposition(|t| matches!(t.k, TK::End | TK::Empty)).unwrap_or(toks.len() - 1);
+                    let after: Vec<Tok> = toks.split_off(last_end + 1);
+                    toks.extend(post);
+                    toks.extend(after);
+                    note.push_str(&format!("deep({}) ", d));
+                }
+            }
+            _ => {}
+        }
+    }
+    note
+}
